@@ -1,9 +1,9 @@
 CONSTANTS
   MaxF = 4
-  MaxActs = 1
-  MaxSub = 3
-  Menus = {1, 2, 3, 4, 5}
-  Pin = FALSE
+  MaxActs = 5
+  MaxSub = 2
+  Menus = {6, 7}
+  Pin = TRUE
 SPECIFICATION GenSpec
 CONSTRAINT GenConstraint
 CHECK_DEADLOCK FALSE
